@@ -61,6 +61,7 @@ V_ENSURES((hash->ctx == NULL && hash->type == NULL) || (__CPROVER_return_value =
 V_ENSURES(__CPROVER_return_value == NULL || __CPROVER_is_fresh(__CPROVER_return_value, SPEC_ALLOC_DIGEST(V_OLD(hash->type)->type)))
 V_ENSURES(__CPROVER_return_value == NULL || SPEC_HASH_VALID(V_OLD(hash->type)->type))
 V_ENSURES(__CPROVER_return_value != NULL || SPEC_HASH_VALID(V_OLD(hash->type)->type) || zck == NULL || zck->error_state > 0)
+V_ENSURES(__CPROVER_return_value == NULL || zck == NULL || zck->error_state == V_OLD(zck->error_state))
 V_ENSURES(hash != g_hu_hash || __CPROVER_return_value == NULL || (g_hu_final == V_OLD(g_hu_final) + 1 && g_fin_total == g_hu_total && g_fin_seen == g_hu_seen && g_fin_ptr == g_hu_ptr && (!(g_k1 < (size_t)SPEC_ALLOC_DIGEST(V_OLD(hash->type)->type)) || g_fin_val == __CPROVER_return_value[g_k1])))
 V_ENSURES((hash == g_hu_hash && __CPROVER_return_value != NULL) || (g_hu_final == V_OLD(g_hu_final) && g_fin_val == V_OLD(g_fin_val) && g_fin_total == V_OLD(g_fin_total) && g_fin_seen == V_OLD(g_fin_seen) && g_fin_ptr == V_OLD(g_fin_ptr)))
 ;
